@@ -205,6 +205,8 @@ def rule_grattr_link(ctx):
 
 
 class _AttrType(PathAnalysis):
+    creators = ("NC_new_attr", "H4_NC_new_attr")
+
     def __init__(self, prog):
         super().__init__(prog)
         self.bad = []
@@ -215,7 +217,7 @@ class _AttrType(PathAnalysis):
 
     def on_stmt(self, func, bid, idx, stmt, env, user):
         for c in calls_in(stmt["e"]):
-            if c[1] in ("NC_new_attr", "H4_NC_new_attr"):
+            if c[1] in self.creators:
                 self.sites.add((c[5], c[6]))
                 user = c[5]
         for x in walk(stmt["e"], True):
@@ -251,7 +253,28 @@ def rule_attr_hdftype(ctx):
         else:
             ctx.holds("ATTRTYPE", key, f.where(), "%d NC_new_attr site(s): HDFtype stored on every non-failing path" % len(a.sites), nontrivial=True)
     ctx.floor("ATTRTYPE", 3, n, "(NC_new_attr call sites in the SD interface)")
-    return n
+    # the in-place update: NC_re_array() re-types the value array of an existing attribute; the attribute's HDF number type is
+    # a separate field and has to follow on every non-failing path (SD reports and hdf_write_attr stores HDFtype, not the nc type)
+    m = 0
+    for f in prog.lib_funcs():
+        if not f.rel.startswith("mfhdf/src/"):
+            continue
+        sites = [c for _, _, _, c in f.calls() if c[1] in ("NC_re_array", "H4_NC_re_array") and c[3] and any(y[0] == "mem" and y[2] == "data" and y[3] == "NC_attr" for y in walk(c[3][0], True))]
+        if not sites:
+            continue
+        a = _AttrType(prog)
+        a.creators = ("NC_re_array", "H4_NC_re_array")
+        a.fails = fail_values(f, prog)
+        a.run(f)
+        m += len(sites)
+        key = "ATTRTYPE:%s:retype" % f.name
+        if a.bad:
+            ctx.violated("ATTRTYPE", key, f.where(min(a.bad)), "the value array of an existing attribute is re-typed by NC_re_array() at line %d and a non-failing return is reached without updating the "
+                         "attribute's HDFtype: the SD interface and the file keep reporting the old number type for the new bytes" % min(a.bad))
+        else:
+            ctx.holds("ATTRTYPE", key, f.where(), "%d in-place re-typing site(s): HDFtype follows on every non-failing path" % len(sites), nontrivial=True)
+    ctx.floor("ATTRTYPE", 1, m, "(NC_re_array calls on attribute values)")
+    return n + m
 
 
 def rule_attr_count_kept(ctx):
